@@ -7,9 +7,11 @@ Property oracle: an independent Python rendering of the property text is compare
 outputs (edge lists, adjacency lists, CSV files, GraphML files, save/load round trips, real tar extraction into
 a scratch folder with the file system diffed)."""
 import itertools
+import math
 import os
 import shutil
 import tempfile
+from fractions import Fraction
 
 from ..common import cnat, cz, cbool, clist, copt, cstr, coq_eval
 from ..impl import Impl
@@ -87,6 +89,42 @@ def oracle_graph(edges, fl, id_kind):
                 reindexed=reindexed)
 
 
+def gen_weights(rng, n, kind):
+    """Weight families. All float values are dyadic (exact binary fractions), so sums of <= 60 of them are exact."""
+    big = [10 ** 5, 3 * 10 ** 5, 10 ** 6, 123456789, 10 ** 9, 1600000000]
+    frac = [0.5, 0.25, 0.75]
+
+    def large():
+        return float(rng.choice(big) * rng.randint(1, 3)) + rng.choice(frac)
+
+    def near():
+        return float(rng.randint(1, 60)) + 2.0 ** -20          # k + 9.5e-7, exactly representable
+    if kind == 'none':
+        return None
+    if kind == 'pos':
+        return [rng.randint(1, 5) for _ in range(n)]
+    if kind == 'signed':
+        return [rng.choice([-3, -2, -1, 1, 2, 3]) for _ in range(n)]
+    if kind == 'dyadic':
+        return [rng.choice([0.5, 2.25, 1.5, 0.25, 3.0, 7.75, -1.5]) for _ in range(n)]
+    if kind == 'float_ints':
+        return [float(rng.randint(1, 9)) for _ in range(n)]            # floats that ARE integers: cast to int
+    if kind == 'large':
+        return [large() for _ in range(n)]
+    if kind == 'near':
+        return [near() for _ in range(n)]
+    if kind == 'large_near':
+        return [large() if rng.random() < 0.5 else near() for _ in range(n)]
+    if kind == 'one_fraction':
+        w = [float(rng.randint(1, 9)) for _ in range(n)]
+        w[rng.randrange(n)] = rng.choice([10 ** 6 + 0.5, 3 + 2.0 ** -20, 0.5])
+        return w
+    raise ValueError(kind)
+
+
+FLOAT_KINDS = ['dyadic', 'float_ints', 'large', 'near', 'large_near', 'one_fraction']
+
+
 def has_reciprocal(edges):
     s = {(a, b) for a, b, w in edges if w != 0}
     return any((b, a) in s for (a, b) in s)
@@ -130,15 +168,34 @@ def flags_lit(fl):
                                                     cbool(fl['reindex']), cbool(fl['sum_duplicates']), sh, mo)
 
 
+def common_den(weights):
+    """Least common denominator of the (exactly converted) weights; 1 for integers / no weights."""
+    den = 1
+    for w in weights or []:
+        d = Fraction(w).denominator
+        den = den * d // math.gcd(den, d)
+    return den
+
+
+def typed(expr, weights, den):
+    """(is the weight array cast to int?, view) — the typing decision is taken exactly in the model."""
+    nums = None if weights is None else [int(Fraction(w) * den) for w in weights]
+    return '(weights_integral %s %s, %s)' % (cz(den), copt(nums, lambda w: clist(w, cz)), expr), nums
+
+
 def edges_expr(pairs, weights, id_kind, fl):
     f = cnat if id_kind == 'int' else cstr
     fn = 'from_edge_list_nat' if id_kind == 'int' else 'from_edge_list_str'
-    return 'view (%s pp_sym_passes_weighted %s %s %s)' % (fn, flags_lit(fl), clist(pairs, lambda e: '(%s, %s)' % (f(e[0]), f(e[1]))),
-                                   copt(weights, lambda w: clist(w, cz)))
+    den = common_den(weights)
+    nums = None if weights is None else [int(Fraction(w) * den) for w in weights]
+    view = 'view (%s pp_sym_passes_weighted %s %s %s)' % (fn, flags_lit(fl), clist(pairs, lambda e: '(%s, %s)' % (f(e[0]), f(e[1]))),
+                                                          copt(nums, lambda w: clist(w, cz)))
+    return typed(view, weights, den)[0]
 
 
-def conv_view(v):
-    """Coq `view` -> comparable dict."""
+def conv_view(v, den=1, weighted=True):
+    """Coq `(weights_integral .., view ..)` -> comparable dict; weighted entries are numerators over den."""
+    integral, v = v
     if v is None:
         return {'err': True}
     v = v[1]
@@ -149,7 +206,9 @@ def conv_view(v):
         return None if x is None else list(x[1])
     if only:        # a bare matrix carries no names
         nm = nr = nc = None
-    return {'shape': [r, c], 'triples': sorted([i, j, w] for (i, j, w) in trip), 'bool': isbool,
+    scale = den if weighted else 1
+    return {'shape': [r, c], 'triples': sorted([i, j, Fraction(w, scale)] for (i, j, w) in trip if w != 0),
+            'dtype': 'bool' if isbool else ('int' if integral else 'float'),
             'names': nv(nm), 'names_row': nv(nr), 'names_col': nv(nc), 'matrix_only': only}
 
 
@@ -162,14 +221,23 @@ def conv_impl(r):
 
     def nv(x):
         return None if x is None else list(x['values'])
-    return {'shape': m['shape'], 'triples': [[i, j, int(w) if float(w) == int(w) else w] for i, j, w in m['triples']],
-            'bool': m['dtype'] == 'bool',
+    return {'shape': m['shape'], 'triples': [[i, j, Fraction(w)] for i, j, w in m['triples']],     # floats convert exactly
+            'dtype': m['dtype'],
             'names': nv(o.get('names')), 'names_row': nv(o.get('names_row')), 'names_col': nv(o.get('names_col')),
             'matrix_only': o['matrix_only']}
 
 
-def oracle_check(ctx, site, case, impl_view, edges, fl, id_kind, family):
-    """Property oracle on the implementation's output. Returns True when it holds."""
+def same_entries(got, exp, approx):
+    if not approx:
+        return got == exp
+    return set(got) == set(exp) and all(abs(got[k] - exp[k]) <= Fraction(1, 10 ** 12) * max(1, abs(exp[k])) for k in exp)
+
+
+def oracle_check(ctx, site, case, impl_view, edges, fl, id_kind, family, approx=False):
+    """Property oracle on the implementation's output (entries compared exactly: weights are converted to
+    rationals without error and the generated weights are dyadic, so the float sums are exact; `approx` = rel 1e-12
+    for the non-dyadic family). Returns True when it holds."""
+    edges = [(a, b, Fraction(w)) for a, b, w in edges]
     exp = oracle_graph(edges, fl, id_kind)
     if impl_view.get('err'):
         report(ctx, site, 'implementation raises on a valid input', case=case, expected=_js(exp), observed=impl_view.get('detail'),
@@ -179,7 +247,7 @@ def oracle_check(ctx, site, case, impl_view, edges, fl, id_kind, family):
     problems = []
     if impl_view['shape'] != exp['shape']:
         problems.append('shape')
-    if got != exp['entries']:
+    if not same_entries(got, exp['entries'], approx):
         problems.append('entries')
     if impl_view['matrix_only'] != exp['matrix_only']:
         problems.append('matrix_only')
@@ -197,6 +265,10 @@ def oracle_check(ctx, site, case, impl_view, edges, fl, id_kind, family):
         bad = {k for k in set(got) | set(exp['entries']) if got.get(k) != exp['entries'].get(k)}
         if all(exp['entries'].get(k) == 1 and got.get(k) == 2 and (k[1], k[0]) in exp['entries'] for k in bad):
             defect = 'unweighted_undirected_reciprocal'
+    if problems == ['entries'] and fl['weighted'] and any(w != int(w) for _, _, w in edges):
+        trunc = oracle_graph([(a, b, Fraction(int(w))) for a, b, w in edges], fl, id_kind)
+        if same_entries(got, trunc['entries'], approx):
+            defect = 'float_weights_truncated'
     report(ctx, site, 'matrix / names differ from the specification (%s)' % ','.join(problems), case=case,
                   expected=_js(exp), observed=impl_view, defect=defect, family=family,
                   weighted=fl['weighted'], directed=fl['directed'], bipartite=fl['bipartite'])
@@ -226,7 +298,7 @@ def _js(exp):
 # =============================================================================================
 # generators
 # =============================================================================================
-def gen_edges(rng, max_edges, id_kind=None, bip=False):
+def gen_edges(rng, max_edges, id_kind=None, bip=False, wkind=None):
     """Random edge multiset with gaps, duplicates, reciprocal pairs, self-loops; optional integer weights."""
     id_kind = id_kind or rng.choice(['int', 'int', 'str', 'mixed'])
     k = rng.randint(2, 7)
@@ -252,14 +324,8 @@ def gen_edges(rng, max_edges, id_kind=None, bip=False):
     if id_kind == 'mixed':
         if all(isinstance(x, int) for e in pairs for x in e):
             pairs[0] = (rng.choice(STR_POOL), pairs[0][1])
-    wk = rng.choice(['none', 'pos', 'pos', 'signed'])
-    if wk == 'none':
-        weights = None
-    elif wk == 'pos':
-        weights = [rng.randint(1, 5) for _ in pairs]
-    else:
-        weights = [rng.choice([-3, -2, -1, 1, 2, 3]) for _ in pairs]
-    return id_kind, pairs, weights
+    wk = wkind or rng.choice(['none', 'pos', 'pos', 'signed'] + FLOAT_KINDS)
+    return id_kind, pairs, gen_weights(rng, len(pairs), wk)
 
 
 def all_flag_combos():
@@ -298,16 +364,20 @@ def run(ctx, scratch):
                 'real tar files (plain/gz/bz2) with nested, dot-dot, absolute and sibling-prefix member names extracted by the '
                 "code's safe_extract into a scratch folder, file system diffed; edge lists: <=30 edges, integer ids with gaps / "
                 'string ids / mixed, duplicates, reciprocal pairs, self-loops, integer weights, x all 32 flag combinations x shape x '
-                'matrix_only, model vs implementation vs independent oracle; adjacency lists and dicts; CSV files written for real '
+                'matrix_only, model vs implementation vs independent oracle; float weights (dyadic fractions, large values with a '
+                'fractional part, near-integers k + 2^-20, mixtures where every weight is close to an integer, integral floats) on '
+                'every route (list / array input, CSV with each delimiter, directed and undirected, duplicates summed) compared '
+                'exactly, the model taking the int-cast decision exactly on rational weights; adjacency lists and dicts; CSV files written for real '
                 "(delimiters , tab space ;, header comment lines # and %, explicit / sep / guessed delimiter) compared with the "
                 'list of their rows and with the oracle, scan_header model vs implementation; save/load on random datasets compared '
                 'field by field; generated GraphML files. distinct = hash of (entry point, arguments); non-trivial = at least one '
                 'edge / one member / one attribute and not an error case')
-    ctx.notes.append('save/load, GraphML, non-ASCII names and float weights are checked by the oracle only (pickle / npz / '
+    ctx.notes.append('save/load, GraphML, non-ASCII names and non-dyadic float weights are checked by the oracle only (pickle / npz / '
                      'ElementTree are outside the model): partial')
     ctx.assumptions = [
         'string identifiers are not parseable as numbers (such strings are read as integers by design) and are ASCII in the model diff',
-        'weights are non-zero integers (a zero weight lists no edge); at least one edge',
+        'weights are non-zero integers or floats (a zero weight lists no edge); generated float weights are dyadic so that sums are exact '
+        '(one oracle-only family of non-dyadic weights is compared with rel 1e-12); at least one edge',
         'CSV fields contain no delimiter candidate, quote or newline; comment lines form a header at the top of the file',
         'archives contain regular files and directories only (no links); the current directory is absolute without double leading slash',
         'Dataset attribute names are identifiers (no dot or slash)',
@@ -474,13 +544,13 @@ def part_extract(ctx, impl, rng, quick, root):
 def part_edges(ctx, impl, rng, quick):
     cases = []      # (family, entry, impl_args, coq_expr, id_kind_norm, edges_for_oracle, flags)
 
-    def add(fam, id_kind, pairs, weights, fl, as_array=False, model=True):
+    def add(fam, id_kind, pairs, weights, fl, as_array=False, model=True, approx=False):
         kind, npairs = norm_ids(id_kind, pairs)
         tuples = [list(p) + ([w] if weights is not None else []) for p, w in zip(pairs, weights or [None] * len(pairs))]
         args = dict(edges=tuples, flags=fl, as_array=as_array)
         edges = [(a, b, (weights[k] if weights is not None else 1)) for k, (a, b) in enumerate(npairs)]
         expr = edges_expr(npairs, weights, kind, fl) if model else None
-        cases.append((fam, 'from_edge_list', 'edge_list', args, expr, kind, edges, fl))
+        cases.append((fam, 'from_edge_list', 'edge_list', args, expr, kind, edges, fl, common_den(weights) if model else 1, approx))
 
     # exhaustive tiny inputs: every flag combination on a fixed set of hand-made multisets
     tiny = [('int', [(0, 1), (1, 0)], None), ('int', [(0, 1), (1, 0), (0, 1), (2, 2)], None),
@@ -503,18 +573,33 @@ def part_edges(ctx, impl, rng, quick):
                 continue
             f = dict(fl, shape=rand_shape(rng), matrix_only=rng.choice([None, None, True, False]))
             add('rnd_%s' % id_kind, id_kind, pairs, weights, f, as_array=(id_kind == 'int' and rng.random() < 0.2))
-    # outside the model (oracle only): non-ASCII names, dyadic float weights
+    # float weights, every family x integer / string identifiers x list / array input x all 32 flag combinations
+    # (in the model the weights are numerators over their common denominator, the int cast is decided exactly)
+    for rep_ in range(1 if quick else 6):
+        for wk in FLOAT_KINDS:
+            for id_kind in ('int', 'str'):
+                _, pairs, weights = gen_edges(rng, 10 if quick else 30, id_kind=id_kind, wkind=wk)
+                if len(pairs) < 3:                      # make sure a duplicate and a reciprocal edge are summed
+                    pairs = pairs + [pairs[0], (pairs[0][1], pairs[0][0])]
+                    weights = gen_weights(rng, len(pairs), wk)
+                as_array = id_kind == 'int' and (rep_ + FLOAT_KINDS.index(wk)) % 2 == 0
+                for fl in all_flag_combos():
+                    add('float_%s_%s%s' % (wk, id_kind, '_array' if as_array else ''), id_kind, pairs, weights,
+                        dict(fl, shape=None, matrix_only=None), as_array=as_array)
+    # outside the model (oracle only): non-ASCII names; non-dyadic float weights (compared with rel 1e-12)
     for _ in range(6 if quick else 40):
-        id_kind, pairs, weights = gen_edges(rng, 10, id_kind=rng.choice(['int', 'str']))
+        id_kind, pairs, weights = gen_edges(rng, 10, id_kind=rng.choice(['int', 'str']), wkind='pos')
+        approx = False
         if id_kind == 'str':
             ren = {a: a + rng.choice(['é', 'ß', '名', '']) for a in {x for e in pairs for x in e}}
             pairs = [(ren[a], ren[b]) for a, b in pairs]
             fam = 'oracle_unicode'
         else:
-            weights = [rng.choice([0.5, 1.5, 2.0, 0.25, 3.0]) for _ in pairs]
-            fam = 'oracle_float_weights'
+            weights = [rng.choice([rng.randint(1, 9) + 1e-6, 100000.1, 1600000000.3, 1.000001, 31.999999]) for _ in pairs]
+            fam = 'oracle_nondyadic_weights'
+            approx = True
         for fl in all_flag_combos():
-            add(fam, id_kind, pairs, weights, dict(fl, shape=None, matrix_only=None), model=False)
+            add(fam, id_kind, pairs, weights, dict(fl, shape=None, matrix_only=None), model=False, approx=approx)
     # adjacency lists (list of lists of integers) and dicts (string keys)
     for _ in range(40 if quick else 300):
         n = rng.randint(1, 7)
@@ -523,15 +608,17 @@ def part_edges(ctx, impl, rng, quick):
             adj[0] = [0]
         fl = dict(rng.choice(list(all_flag_combos())), shape=rand_shape(rng), matrix_only=rng.choice([None, True, False]))
         edges = [(i, j, 1) for i, nb in enumerate(adj) for j in nb]
-        expr = 'view (from_adjacency_list_nat pp_sym_passes_weighted %s %s)' % (flags_lit(fl), clist(adj, lambda r: clist(r, cnat)))
-        cases.append(('adj_list', 'from_adjacency_list', 'adjacency_list', dict(adj=adj, flags=fl), expr, 'int', edges, fl))
+        expr = '(weights_integral 1%%Z None, view (from_adjacency_list_nat pp_sym_passes_weighted %s %s))' % (
+            flags_lit(fl), clist(adj, lambda r: clist(r, cnat)))
+        cases.append(('adj_list', 'from_adjacency_list', 'adjacency_list', dict(adj=adj, flags=fl), expr, 'int', edges, fl, 1, False))
         keys = rng.sample(STR_POOL, rng.randint(1, 5))
         dadj = [[k, [rng.choice(STR_POOL) for _ in range(rng.choice([0, 1, 2, 3]))]] for k in keys]
         if not any(nb for _, nb in dadj):
             dadj[0][1] = [keys[0]]
         edges = [(k, j, 1) for k, nb in dadj for j in nb]
-        expr = 'view (from_adjacency_dict_str pp_sym_passes_weighted %s %s)' % (flags_lit(fl), clist(dadj, lambda r: '(%s, %s)' % (cstr(r[0]), clist(r[1], cstr))))
-        cases.append(('adj_dict', 'from_adjacency_list', 'adjacency_list', dict(adj=dadj, flags=fl, dict=True), expr, 'str', edges, fl))
+        expr = '(weights_integral 1%%Z None, view (from_adjacency_dict_str pp_sym_passes_weighted %s %s))' % (
+            flags_lit(fl), clist(dadj, lambda r: '(%s, %s)' % (cstr(r[0]), clist(r[1], cstr))))
+        cases.append(('adj_dict', 'from_adjacency_list', 'adjacency_list', dict(adj=dadj, flags=fl, dict=True), expr, 'str', edges, fl, 1, False))
     # model
     model = [None] * len(cases)
     for kind in ('int', 'str'):
@@ -539,9 +626,9 @@ def part_edges(ctx, impl, rng, quick):
         vals = coq_eval('c18' + kind, ['Base.Util', 'Model.Parse', 'Gen.ParseCalls'], [cases[i][4] for i in idx],
                         prelude=STR_PRELUDE)
         for i, v in zip(idx, vals):
-            model[i] = conv_view(v)
+            model[i] = conv_view(v, den=cases[i][8], weighted=cases[i][7]['weighted'])
     # implementation, diff, oracle
-    for i, (fam, site, fn, args, expr, kind, edges, fl) in enumerate(cases):
+    for i, (fam, site, fn, args, expr, kind, edges, fl, den, approx) in enumerate(cases):
         r = impl.call('c18', fn, args, timeout=30)
         ctx.traces += 1
         got = conv_impl(r)
@@ -550,7 +637,7 @@ def part_edges(ctx, impl, rng, quick):
         if model[i] is not None and {k: v for k, v in got.items() if k != 'detail'} != model[i]:
             report(ctx, site, 'implementation differs from the model', case=args, expected=model[i], observed=got,
                           kind='correspondence', family=fam)
-        oracle_check(ctx, site, args, got, edges, fl, kind, fam)
+        oracle_check(ctx, site, args, got, edges, fl, kind, fam, approx=approx)
         if i in (3, 1500):
             ctx.sample(dict(kind=fn, family=fam, args=args, model=model[i], impl=got, reciprocal=recip), limit=4)
 
@@ -576,31 +663,29 @@ def part_csv(ctx, impl, rng, quick, root):
     sub = os.path.join(root, 'csv')
     n = 160 if quick else 1500
     scan_cases = []
-    for k in range(n):
-        numeric = rng.random() < 0.5
+
+    def one_csv(k, numeric, d, wk, fl, hk, how, tag=''):
         ids = csv_ids(rng, numeric)
         m = 1 if k % 40 == 7 else rng.randint(2, 12 if quick else 30)
         pairs = [(rng.choice(ids), rng.choice(ids)) for _ in range(m)]
         if m > 2 and rng.random() < 0.5:
             pairs[1] = (pairs[0][1], pairs[0][0])
-        weights = None if rng.random() < 0.5 else [rng.randint(1, 5) for _ in pairs]
-        d = DELIMS[k % 4]
-        hk = rng.choice(['none', 'none', 'hash', 'percent', 'mixed'])
+        if m > 3 and tag:
+            pairs[2] = pairs[0]                      # a duplicate edge whose weights are summed
+        weights = gen_weights(rng, m, wk)
         header = {'none': [], 'hash': ['# source: test', '# n m'], 'percent': ['% sym unweighted'], 'mixed': ['# first', '% second']}[hk]
-        rows = [[str(a), str(b)] + ([str(w)] if weights is not None else []) for (a, b), w in zip(pairs, weights or [None] * m)]
+        rows = [[str(a), str(b)] + ([repr(w)] if weights is not None else []) for (a, b), w in zip(pairs, weights or [None] * m)]
         text = ''.join(h + '\n' for h in header) + ''.join(d.join(r) + '\n' for r in rows)
-        fl = dict(rng.choice(list(all_flag_combos())), shape=rand_shape(rng) if numeric else None, matrix_only=rng.choice([None, True, False]))
-        how = rng.choice(['guess', 'guess', 'delimiter', 'sep'])
         args = dict(root=sub, text=text, flags=fl)
         if how != 'guess':
             args[how] = d
-        case = dict(args, n_rows=m, numeric=numeric, mixed_comments=(hk == 'mixed'), delimiter=d, how=how, header=hk)
+        case = dict(args, n_rows=m, numeric=numeric, mixed_comments=(hk == 'mixed'), delimiter=d, how=how, header=hk, weights=wk)
         case.pop('root')
         id_kind = 'int' if numeric else 'str'
         edges = [(a, b, (weights[i] if weights is not None else 1)) for i, (a, b) in enumerate(pairs)]
         r = impl.call('c18', 'csv_file', args, timeout=30)
         ctx.traces += 1
-        fam = 'csv:%s:%s' % ('num' if numeric else 'str', {',': 'comma', '\t': 'tab', ' ': 'space', ';': 'semicolon'}[d])
+        fam = 'csv%s:%s:%s' % (tag, 'num' if numeric else 'str', {',': 'comma', '\t': 'tab', ' ': 'space', ';': 'semicolon'}[d])
         ctx.count(fam, ('csv', text, sorted(fl.items(), key=str), how), True)
         got = conv_impl(r)
         ok = oracle_check(ctx, 'from_csv', case, got, edges, fl, id_kind, fam)
@@ -609,12 +694,28 @@ def part_csv(ctx, impl, rng, quick, root):
         r2 = impl.call('c18', 'edge_list', dict(edges=tuples, flags=fl), timeout=30)
         ctx.traces += 1
         got2 = conv_impl(r2)
-        if ok and {k: v for k, v in got.items() if k != 'bool'} != {k: v for k, v in got2.items() if k != 'bool'}:
+        if ok and {k2: v for k2, v in got.items() if k2 != 'dtype'} != {k2: v for k2, v in got2.items() if k2 != 'dtype'}:
             report(ctx, 'from_csv', 'file and list of its rows give different graphs', case=case, expected=got2, observed=got,
-                          defect='other', family=fam)
+                   defect='other', family=fam)
         scan_cases.append((text, d, case, fam))
         if k == 5:
             ctx.sample(dict(kind='from_csv', case=case, impl=got, rows=got2), limit=5)
+
+    for k in range(n):
+        numeric = rng.random() < 0.5
+        fl = dict(rng.choice(list(all_flag_combos())), shape=rand_shape(rng) if numeric else None, matrix_only=rng.choice([None, True, False]))
+        one_csv(k, numeric, DELIMS[k % 4], rng.choice(['none', 'none', 'pos', 'pos'] + FLOAT_KINDS), fl,
+                rng.choice(['none', 'none', 'hash', 'percent', 'mixed']), rng.choice(['guess', 'guess', 'delimiter', 'sep']))
+    # float weights: every family x every delimiter x numeric / named identifiers x directed / undirected, duplicates summed
+    for rep_ in range(1 if quick else 4):
+        for wk in FLOAT_KINDS:
+            for d in DELIMS:
+                for numeric in (True, False):
+                    for directed in (True, False):
+                        fl = dict(directed=directed, bipartite=False, weighted=True, reindex=rng.random() < 0.3, sum_duplicates=True,
+                                  shape=None, matrix_only=None)
+                        one_csv(1000 + rep_, numeric, d, wk, fl, rng.choice(['none', 'hash']), rng.choice(['guess', 'delimiter']),
+                                tag='_float')
     # adjacency-list files (numeric; an empty line means no neighbour) and adjacency dicts
     for k in range(30 if quick else 300):
         nrow = rng.randint(2, 6)
